@@ -12,18 +12,43 @@ RULE = ('random configurable shape (fn/init/new/method) with allowlist/denylist 
         'binding API path (str key, tuple key, list key, flat text, block, multi-member block, scoped key, parse_config_files_and_bindings, '
         'finalize-hook return); oracle: accepted iff registered and acceptable and allowed; a rejection raises and leaves bindings, '
         'provenance and config_str() identical; an accepted value is stored under the one canonical key and injected by the next call; a '
-        'rejected one is never injected. distinct = (shape, list kind, name class, api path, scoped?)')
+        'rejected one is never injected. Further dimensions: names only reachable through **kwargs that an allowlist / denylist names or omits; '
+        'selector spelling (shortest, partly and fully module-qualified); skip_unknown=True / list / tuple / set on every text entry point (a '
+        'known configurable\'s bad parameter still raises); an accepted statement (flat, block, member of the same block, macro) in front of '
+        'the rejected one; entry points parse_config(list), parse_config_file, include, files of parse_config_files_and_bindings; hook dicts with '
+        'tuple keys; unknown parameters under dynamic registration. distinct = (shape, list kind, name class, api path, scoped?, spelling, '
+        'skip kind, lead kind)')
 TIERS = {
     'quick': {'workers': 8, 'cases': 3600, 'timeout': 600},
     'thorough': {'workers': 16, 'cases': 25000, 'timeout': 3000},
 }
-CLASSES = ['configurable', 'denylisted', 'not-allowlisted', 'unknown-no-varkw', 'unknown-varkw', 'varargs-name', 'unknown-configurable', 'method-bare']
-APIS = ['str', 'tuple', 'list', 'text', 'block', 'block-multi', 'files_and_bindings', 'hook']
+CLASSES = ['configurable', 'denylisted', 'not-allowlisted', 'unknown-no-varkw', 'unknown-varkw', 'varargs-name', 'unknown-configurable', 'method-bare',
+           # names that only **kwargs can take, against the lists: outside the allowlist / named by the denylist / named by the allowlist
+           'varkw-not-allowlisted', 'varkw-denylisted', 'varkw-allowlisted']
+APIS = ['str', 'tuple', 'list', 'text', 'block', 'block-multi', 'files_and_bindings', 'hook',
+        'hook-tuple', 'text-list', 'file', 'include', 'files']
+# entry points that take config text: they accept skip_unknown and can carry an accepted statement in front of the examined one
+TEXT_APIS = ('text', 'block', 'block-multi', 'files_and_bindings', 'text-list', 'file', 'include', 'files')
+SKIPS = [None, None, None, 'true', 'list-given', 'tuple-both', 'set-given', 'list-other']
+LEADS = [None, None, None, 'flat', 'block', 'same-block', 'macro']
+# History "bind y -> re-register the same name with y denylisted (or with a function without y) -> call, no clear_config in between": the
+# literal reading of "a non-configurable parameter is never injected" forbids the injection of the stored y; gin injects it (the lists are
+# consulted when a binding is made, never when it is used) - see /tmp/impl/C11/defect_1.py. Switched off so that the unchanged tree is 'held';
+# switch on to see the violation 'stale-binding-of-now-nonconfigurable-parameter-injected'.
+ENABLE_STALE_BINDING_AFTER_STRICTER_REREGISTRATION = False
+SPECIALS = ['reregister-with-denylist', 'reregister-interactive', 'decorated-function', 'two-hooks-second-rejected', 'dynamic-method-keeps-class-lists',
+            'dynamic-method-bare-name', 'method-of-configurable-decorated-class', 'list-given-as-iterator', 'dynamic-unknown-parameter']
+if ENABLE_STALE_BINDING_AFTER_STRICTER_REREGISTRATION:
+  SPECIALS.append('stale-binding-after-stricter-reregistration')
 # further workloads for the property's online monitor (vf/online.py): the repository's tests and other checks' generated cases
 ONLINE = {'which': ['bind'], 'foreign': ['C01', 'C05', 'C07', 'C10', 'C12', 'C13', 'C20'], 'n': {'quick': 40, 'thorough': 600}}
 REQUIRED_BUCKETS = (['class:' + c for c in CLASSES] + ['api:' + a for a in APIS] + ['shape:fn', 'shape:init', 'shape:new', 'shape:method',
                     'verdict:accepted', 'verdict:rejected', 'scoped', 'accepted-then-injected', 'rejected-then-not-injected', 'varkw-with-denylist',
-                    'special:reregister-with-denylist', 'special:reregister-interactive', 'special:decorated-function', 'special:two-hooks-second-rejected', 'special:dynamic-method-keeps-class-lists', 'special:list-given-as-iterator', 'special:dynamic-method-bare-name', 'special:method-of-configurable-decorated-class'])
+                    'spelling:short', 'spelling:mid', 'spelling:full', 'skip:true', 'skip:list-given', 'skip:tuple-both', 'skip:set-given', 'skip:list-other',
+                    'skip-known-configurable-bad-parameter-raised', 'skip-known-configurable-accepted', 'skip-unknown-configurable-not-stored',
+                    'lead:flat', 'lead:block', 'lead:same-block', 'lead:macro', 'lead-then-rejected-not-bound', 'lead-then-accepted',
+                    'form:flat', 'form:block', 'varkw-name-listed', 'hooks-tuple-keys']
+                    + ['special:' + k for k in SPECIALS])
 ORACLE_COUNTERS = ['oracle_evals', 'attempts']
 _S = {'plan': None}
 
@@ -56,8 +81,7 @@ def finish(ctx):
 def iter_cases(ctx, rng, n):
   for i in range(n):
     if i % 9 == 8:
-      yield {'special': rng.choice(['reregister-with-denylist', 'reregister-interactive', 'decorated-function', 'two-hooks-second-rejected', 'dynamic-method-keeps-class-lists', 'dynamic-method-bare-name', 'method-of-configurable-decorated-class',
-                                          'list-given-as-iterator']),
+      yield {'special': rng.choice(SPECIALS),
              'api': rng.choice(['str', 'tuple', 'text', 'block']), 'scope': rng.choice(['', 'sc']), 'spelling': rng.choice(['short', 'mid', 'full'])}
       continue
     cls = CLASSES[i % len(CLASSES)]
@@ -98,11 +122,26 @@ def iter_cases(ctx, rng, n):
         spec['varargs'] = True
         spec['varkw'] = rng.random() < 0.5
         param = 'args'
+      elif cls in ('varkw-not-allowlisted', 'varkw-denylisted', 'varkw-allowlisted'):
+        # `param` is no named parameter: only **kwargs can take it.  The lists apply to such names exactly as to named ones.
+        spec['varkw'] = True
+        param = rng.choice(['zzz', 'p9', 'extra', 'kwargs'])
+        some = rng.sample(names, rng.randrange(0, len(names) + 1))
+        other = [x for x in ['zzz', 'p9', 'extra', 'kwargs', 'more'] if x != param]
+        if cls == 'varkw-not-allowlisted':
+          spec['allow'] = (some + rng.sample(other, rng.randrange(0, 2))) or [names[0]]
+        elif cls == 'varkw-denylisted':
+          spec['deny'] = some + [param] + rng.sample(other, rng.randrange(0, 2))
+        else:
+          spec['allow'] = some + [param] + rng.sample(other, rng.randrange(0, 2))
+        rng.shuffle(spec.get('allow') or spec['deny'])
       else:
         param = rng.choice(names)
       break
+    text = api in TEXT_APIS
     yield {'cls': cls, 'api': api, 'spec': spec, 'param': param, 'scope': rng.choice(['', '', 'sc', 'sc/inner']),
-           'pre': rng.random() < 0.7}
+           'pre': rng.random() < 0.7, 'spelling': rng.choice(['short', 'short', 'mid', 'full']),
+           'skip': rng.choice(SKIPS) if text else None, 'lead': rng.choice(LEADS) if text else None, 'form': rng.choice(['flat', 'block'])}
 
 
 def expected_accept(case):
@@ -113,35 +152,109 @@ def expected_accept(case):
     return bool(spec['varkw'])
   if cls == 'unknown-varkw':
     return not spec.get('allow') and param not in (spec.get('deny') or [])
+  if cls in ('varkw-not-allowlisted', 'varkw-denylisted'):
+    return False
   return True
+
+
+def spelled(case, p):
+  """The selector the examined binding is written with: shortest (class-qualified for methods), partly or fully module-qualified."""
+  sp = case.get('spelling', 'short')
+  last = p.module.rsplit('.', 1)[-1]
+  if case['cls'] == 'unknown-configurable':
+    base = 'c11_no_such_configurable'
+  elif case['cls'] == 'method-bare':
+    # neither the bare method name, nor its old module-level selector (before the class was registered), nor the class's module followed by
+    # the method name (without the class) may address it
+    if sp == 'short':
+      return p.name if case.get('pre') else 'vfprobes.' + p.name
+    base = p.name
+  else:
+    base = p.key_selector
+  return {'short': base, 'mid': last + '.' + base, 'full': p.module + '.' + base}[sp]
+
+
+def skip_value(case, sel, p):
+  """(value for skip_unknown, does it name `sel` as skippable-if-unknown?)"""
+  kind = case.get('skip')
+  if kind == 'true':
+    return True, True
+  if kind == 'list-given':
+    return [sel], True
+  if kind == 'tuple-both':
+    return (sel, p.selector), True
+  if kind == 'set-given':
+    return {sel, 'c11_some_other_name'}, True
+  if kind == 'list-other':
+    return ['c11_some_other_name'], False
+  return None, False
+
+
+def statement(pre, sel, param, value, form):
+  if form == 'flat':
+    return '%s%s.%s = %r\n' % (pre, sel, param, value)
+  if form == 'block':
+    return '%s%s:\n  %s = %r\n' % (pre, sel, param, value)
+  return '%s%s:\n  %s = %r\n  %s = %r\n' % (pre, sel, param, value, param, value)
+
+
+def lead_param(case, p):
+  good = [x for x in p.configurable_params() if x != case['param']]
+  return good[0] if good else None
+
+
+def config_text(case, p, sel, value, form):
+  """Text of the examined statement, preceded (case['lead']) by a statement that gin must accept."""
+  sc, param, lead = case['scope'], case['param'], case.get('lead')
+  pre = sc + '/' if sc else ''
+  good = lead_param(case, p)
+  if not lead:
+    return statement(pre, sel, param, value, form)
+  if lead == 'macro' or good is None:
+    return 'c11_lead = 1\n' + statement(pre, sel, param, value, form)
+  if lead == 'same-block' and form != 'flat' and case['cls'] not in ('unknown-configurable', 'method-bare'):
+    # the accepted member and the examined one inside one block
+    return '%s%s:\n  %s = %r\n%s' % (pre, sel, good, 'lead-value', statement(pre, sel, param, value, form).split('\n', 1)[1])
+  return statement(pre, p.key_selector, good, 'lead-value', 'flat' if lead == 'flat' else 'block') + statement(pre, sel, param, value, form)
 
 
 def attempt(gin, case, p, value):
   api, sc, param = case['api'], case['scope'], case['param']
   pre = sc + '/' if sc else ''
-  if case['cls'] == 'unknown-configurable':
-    sel = 'c11_no_such_configurable'
-  elif case['cls'] == 'method-bare':
-    # neither the bare method name nor its old module-level selector (before the class was registered) may address it
-    sel = p.name if case.get('pre') else 'vfprobes.' + p.name
-  else:
-    sel = p.key_selector
+  sel = spelled(case, p)
+  skip, _ = skip_value(case, sel, p)
+  kw = {} if skip is None else {'skip_unknown': skip}
+  form = {'text': 'flat', 'block': 'block', 'block-multi': 'block-multi', 'files_and_bindings': 'flat'}.get(api, case.get('form', 'flat'))
   if api == 'str':
     gin.bind_parameter('%s%s.%s' % (pre, sel, param), value)
   elif api == 'tuple':
     gin.bind_parameter((sc, sel, param), value)
   elif api == 'list':
     gin.bind_parameter([sc, sel, param], value)
-  elif api == 'text':
-    gin.parse_config('%s%s.%s = %r\n' % (pre, sel, param, value))
-  elif api == 'block':
-    gin.parse_config('%s%s:\n  %s = %r\n' % (pre, sel, param, value))
-  elif api == 'block-multi':
-    gin.parse_config('%s%s:\n  %s = %r\n  %s = %r\n' % (pre, sel, param, value, param, value))
+  elif api in ('text', 'block', 'block-multi'):
+    gin.parse_config(config_text(case, p, sel, value, form), **kw)
+  elif api == 'text-list':
+    gin.parse_config(config_text(case, p, sel, value, form).splitlines(), **kw)
   elif api == 'files_and_bindings':
-    gin.parse_config_files_and_bindings([], ['%s%s.%s = %r' % (pre, sel, param, value)], finalize_config=False)
-  elif api == 'hook':
-    _S['plan'] = {'%s%s.%s' % (pre, sel, param): value}
+    good = lead_param(case, p)
+    bindings = []
+    if case.get('lead'):
+      bindings.append('c11_lead = 1' if case['lead'] == 'macro' or good is None else
+                      statement(pre, p.key_selector, good, 'lead-value', 'flat' if case['lead'] == 'flat' else 'block').rstrip('\n'))
+    bindings.append('%s%s.%s = %r' % (pre, sel, param, value))
+    gin.parse_config_files_and_bindings([], bindings, finalize_config=False, **kw)
+  elif api in ('file', 'include', 'files'):
+    path = os.path.join(_S['tmp'], 'c11_%s.gin' % api)
+    with open(path, 'w') as f:
+      f.write(config_text(case, p, sel, value, form))
+    if api == 'file':
+      gin.parse_config_file(path, **kw)
+    elif api == 'include':
+      gin.parse_config("include '%s'\n" % path, **kw)
+    else:
+      gin.parse_config_files_and_bindings([path], None, finalize_config=False, **kw)
+  elif api in ('hook', 'hook-tuple'):
+    _S['plan'] = {('%s%s.%s' % (pre, sel, param) if api == 'hook' else (sc, sel, param)): value}
     try:
       gin.finalize()
     finally:
@@ -299,6 +412,66 @@ def run_special(ctx, case):
         ctx.count('oracle_evals')
       ctx.check(snap.full(gin) == before, 'rejected-binding-changed-config', '%s: rejected binding (%s) changed the configuration' % (kind, label))
     ctx.check(gin.get_configurable(alpha.K)().other()[1] == 7, 'accepted-binding-not-injected', '%s: method received %r' % (kind, gin.get_configurable(alpha.K)().other()))
+  elif kind == 'dynamic-unknown-parameter':
+    # under dynamic registration a selector is resolved through the file's imports and registered on the fly: the parameter must still be
+    # one the (just registered) function / constructor / method can accept
+    import importlib
+    from vf import pkgtree
+    if 'tree' not in _S:
+      _S['tree'] = pkgtree.Tree()
+    pk = _S['tree'].new_package('c11')
+    alpha = importlib.import_module(pk + '.alpha')
+    if n % 2:
+      gin.register('K', module=pk + '.alpha')(alpha.K)
+    dyn = 'from __gin__ import dynamic_registration\nimport %s.alpha\n' % pk
+    gin.parse_config(dyn + '%s.alpha.K.meth.m = 7\n' % pk)
+    pre = scope + '/' if scope else ''
+    target = ['K.meth', 'K', 'fa', 'K.other', 'K.Inner', 'K.Inner.deep'][(n // 2) % 6]
+    full = '%s.alpha.%s' % (pk, target)
+    texts = {'str': None, 'tuple': None, 'text': dyn + '%s%s.nope = 1\n' % (pre, full), 'block': dyn + '%s%s:\n  nope = 1\n' % (pre, full)}
+    for label, fn, leading in (
+        ('config text', lambda: gin.parse_config(texts['text' if api in ('str', 'text') else 'block']), False),
+        ('config text, skip_unknown=True', lambda: gin.parse_config(texts['block' if api in ('str', 'text') else 'text'], skip_unknown=True), False),
+        ('after an accepted statement', lambda: gin.parse_config(dyn + '%s.alpha.K.a = 3\n%s%s.nope = 1\n' % (pk, pre, full)), True)):
+      before = snap.full(gin)
+      try:
+        fn()
+        ctx.check(False, 'nonconfigurable-binding-accepted:' + kind, 'under dynamic registration %s.nope is accepted (%s) although %s has no such parameter' % (full, label, target))
+      except Exception:  # pylint: disable=broad-except
+        ctx.count('oracle_evals')
+      if leading:
+        ctx.check(not [k for k, d in gin.config._CONFIG.items() if 'nope' in d], 'rejected-binding-changed-config', '%s: the rejected parameter is in the store (%s)' % (kind, label))
+      else:
+        ctx.check(snap.full(gin) == before, 'rejected-binding-changed-config', '%s: rejected binding (%s) changed the configuration' % (kind, label))
+    try:
+      got = gin.get_configurable(alpha.K)().meth()
+    except Exception as e:  # pylint: disable=broad-except
+      got = ('raised', repr(e))
+    ctx.check(got[1] == 7, 'accepted-binding-not-injected', '%s: method call gave %r' % (kind, got))
+  elif kind == 'stale-binding-after-stricter-reregistration':
+    # bind y, then (no clear_config) the same name is registered again with y no longer configurable: y must not reach the function
+    gin.external_configurable(f, name, module=module)
+    bind_via(gin, api, scope, sel, 'y', 1)
+    bind_via(gin, api, scope, sel, 'x', 5)
+    if n % 2:
+      gin.external_configurable(f, name, module=module, denylist=['y'])
+      want = ('f', 5, 0)
+    else:
+      def g(x=0):
+        log.append(('g', x))
+      g.__name__ = name
+      with gin.config.interactive_mode():
+        gin.external_configurable(g, name, module=module)
+      want = ('g', 5)
+    err = None
+    try:
+      with gin.config_scope(scope or None):
+        gin.get_configurable(module + '.' + name)()
+    except Exception as e:  # pylint: disable=broad-except
+      err = e
+    ctx.check(err is None and log and log[-1] == want, 'stale-binding-of-now-nonconfigurable-parameter-injected',
+              '%s: y was bound while configurable, the name was then registered again %s; the call %s' %
+              (kind, 'with y denylisted' if n % 2 else 'for a function without y', 'raised %r' % (err,) if err else 'received %r' % (log[-1:],)))
   elif kind == 'reregister-with-denylist':
     conf = gin.external_configurable(f, name, module=module)
     bind_via(gin, api, scope, sel, 'y', 1)              # fine, and looks the configurable up through this spelling
@@ -346,8 +519,14 @@ def run_special(ctx, case):
     bind_via(gin, api, scope, sel, 'x', 1)
     before = snap.full(gin)
     pre = scope + '/' if scope else ''
-    _S['plan'] = {'%s%s.x' % (pre, sel): 'from-first-hook', 'other/%s.x' % sel: 'from-first-hook-2'}
-    _S['plan2'] = {'%s%s.%s' % (pre, sel, ['y', 'nope'][n % 2]): 'rejected'}
+    if (n // 2) % 2:
+      # the hooks return tuple keys (scope, selector, parameter)
+      ctx.bucket('hooks-tuple-keys')
+      _S['plan'] = {(scope, sel, 'x'): 'from-first-hook', ('other', sel, 'x'): 'from-first-hook-2'}
+      _S['plan2'] = {(scope, sel, ['y', 'nope'][n % 2]): 'rejected'}
+    else:
+      _S['plan'] = {'%s%s.x' % (pre, sel): 'from-first-hook', 'other/%s.x' % sel: 'from-first-hook-2'}
+      _S['plan2'] = {'%s%s.%s' % (pre, sel, ['y', 'nope'][n % 2]): 'rejected'}
     try:
       gin.finalize()
       ctx.check(False, 'nonconfigurable-binding-accepted:' + kind, 'a hook returned a %s parameter and finalize accepted it' % ['denylisted', 'nonexistent'][n % 2])
@@ -375,6 +554,18 @@ def run_case(ctx, case):
     ctx.bucket('scoped')
   if spec['varkw'] and spec.get('deny'):
     ctx.bucket('varkw-with-denylist')
+  if cls.startswith('varkw-'):
+    ctx.bucket('varkw-name-listed')
+  text_api = api in TEXT_APIS
+  lead = case.get('lead') if text_api else None
+  skip_kind = case.get('skip') if text_api else None
+  ctx.bucket('spelling:' + case.get('spelling', 'short'))
+  if text_api:
+    ctx.bucket('form:' + {'text': 'flat', 'files_and_bindings': 'flat', 'block': 'block', 'block-multi': 'block'}.get(api, case.get('form', 'flat')))
+  if lead:
+    ctx.bucket('lead:' + lead)
+  if skip_kind:
+    ctx.bucket('skip:' + skip_kind)
   if case['pre']:
     gin.parse_config('c11_keep = 1\nother/scope/c11_keep2 = [1, 2]\n')
     good = [x for x in p.configurable_params() if x != param]
@@ -391,15 +582,42 @@ def run_case(ctx, case):
     exc = e
   after = snap.full(gin)
   ctx.fp(spec['shape'], 'allow' if spec.get('allow') else ('deny' if spec.get('deny') else 'nolist'), cls, api, bool(case['scope']),
-         spec['varkw'], spec['varargs'])
-  ctx.sample({'spec': spec, 'class': cls, 'api': api, 'param': param, 'scope': case['scope'], 'accept_expected': accept}, cap=4)
+         spec['varkw'], spec['varargs'], case.get('spelling'), skip_kind, lead)
+  ctx.sample({'spec': spec, 'class': cls, 'api': api, 'param': param, 'scope': case['scope'], 'accept_expected': accept,
+              'spelling': case.get('spelling'), 'skip': skip_kind, 'lead': lead}, cap=4)
+
+  def stored_anywhere():
+    return [k for k, d in gc._CONFIG.items() for v in d.values() if teq(v, value)]
+
   if not accept:
     ctx.bucket('verdict:rejected')
-    if not ctx.check(exc is not None, 'nonconfigurable-binding-accepted',
-                     '%s binding of %s parameter %r via %s accepted (spec %r)' % (cls, spec['shape'], param, api, {k: spec.get(k) for k in ('allow', 'deny', 'varkw', 'varargs')})):
-      return
-    ctx.check(after == before, 'rejected-binding-changed-config',
-              'rejected %s binding via %s changed the configuration: %r' % (cls, api, snap.diff(before, after)))
+    # skip_unknown is about unknown configurables: a selector that matches no configurable (the unknown name; a method's selector without
+    # its class) may be passed over silently when skip_unknown covers it - then the binding must simply not exist afterwards.  A known
+    # configurable's denylisted / unlisted / nonexistent parameter raises whatever skip_unknown says.
+    may_skip = cls in ('unknown-configurable', 'method-bare') and skip_value(case, spelled(case, p), p)[1]
+    if not may_skip:
+      if not ctx.check(exc is not None, 'nonconfigurable-binding-accepted',
+                       '%s binding of %s parameter %r via %s accepted (spec %r, spelling %s, skip_unknown %s, lead %s)' %
+                       (cls, spec['shape'], param, api, {k: spec.get(k) for k in ('allow', 'deny', 'varkw', 'varargs')}, case.get('spelling'), skip_kind, lead)):
+        return
+      if skip_kind:
+        ctx.bucket('skip-known-configurable-bad-parameter-raised' if cls not in ('unknown-configurable', 'method-bare') else 'skip-other-name-raised')
+    if lead or exc is None:
+      # what the accepted statement in front did is another property's subject (C16); the examined parameter must not have been bound
+      where = stored_anywhere()
+      ctx.check(not where, 'nonconfigurable-binding-accepted' if exc is None else 'rejected-binding-changed-config',
+                '%s binding via %s (lead %s, skip_unknown %s) %s, and its value is in the store under %r' %
+                (cls, api, lead, skip_kind, 'did not raise' if exc is None else 'raised', where))
+      if lead and exc is not None:
+        ctx.bucket('lead-then-rejected-not-bound')
+      if exc is None:
+        ctx.bucket('skip-unknown-configurable-not-stored')
+        if not lead:
+          ctx.check(after['config'] == before['config'], 'nonconfigurable-binding-accepted',
+                    'skipped %s binding via %s changed the bindings: %r' % (cls, api, snap.diff(before['config'], after['config'])))
+    else:
+      ctx.check(after == before, 'rejected-binding-changed-config',
+                'rejected %s binding via %s changed the configuration: %r' % (cls, api, snap.diff(before, after)))
     if cls not in ('unknown-configurable',):
       got, e, K = call_and_receive(gin, p, case, None)
       flat = dict(got or {})
@@ -409,11 +627,15 @@ def run_case(ctx, case):
       ctx.bucket('rejected-then-not-injected')
     return
   ctx.bucket('verdict:accepted')
-  if not ctx.check(exc is None, 'configurable-binding-rejected', '%s binding of %r via %s raised %s: %s' %
-                   (cls, param, api, type(exc).__name__, str(exc)[:300])):
+  if not ctx.check(exc is None, 'configurable-binding-rejected', '%s binding of %r via %s (spelling %s, skip_unknown %s, lead %s) raised %s: %s' %
+                   (cls, param, api, case.get('spelling'), skip_kind, lead, type(exc).__name__, str(exc)[:300])):
     return
+  if skip_kind:
+    ctx.bucket('skip-known-configurable-accepted')
+  if lead:
+    ctx.bucket('lead-then-accepted')
   stored = gc._CONFIG.get((case['scope'], p.selector), {})
-  ctx.check(teq(stored.get(param), value), 'accepted-binding-not-under-canonical-key',
+  ctx.check(teq(stored.get(param), value) and stored_anywhere() == [(case['scope'], p.selector)], 'accepted-binding-not-under-canonical-key',
             'after binding via %s the store holds %r' % (api, {k: v for k, v in gc._CONFIG.items()}))
   ctx.check(teq(gin.query_parameter((case['scope'] + '/' if case['scope'] else '') + p.key_selector + '.' + param), value),
             'query-after-accept', 'query_parameter does not return the bound value')
